@@ -5,7 +5,9 @@ package verifharness
 // after NewConn returned; a post-return I/O probe checks the connection is usable. TLC validates the logs.
 
 import (
+	"bytes"
 	"context"
+	"errors"
 	"fmt"
 	"net"
 	"os"
@@ -226,4 +228,148 @@ func TestWatchScenarios(t *testing.T) {
 		}
 		runtime.GOMAXPROCS(old)
 	}
+}
+
+// ---- other transports under the same property: one whose SetDeadline is not supported (returns an error, changes
+// nothing), and one that has the hello buffered in front of it (a bufio-fronted listener: the bytes are there whatever
+// the deadline says). Direct assertions on the returned connection: not closed, no deadline left armed, I/O works.
+type oddConn struct {
+	net.Conn
+	mu       sync.Mutex
+	noDL     bool
+	pre      []byte // bytes served before the underlying connection is consulted
+	armed    bool   // an expired deadline is set
+	closed   bool
+	dlCalls  int
+	afterRet bool
+	lateCall bool
+}
+
+func (o *oddConn) Read(p []byte) (int, error) {
+	o.mu.Lock()
+	if len(o.pre) > 0 {
+		n := copy(p, o.pre)
+		o.pre = o.pre[n:]
+		o.mu.Unlock()
+		return n, nil
+	}
+	o.mu.Unlock()
+	return o.Conn.Read(p)
+}
+func (o *oddConn) Close() error {
+	o.mu.Lock()
+	o.closed = true
+	o.mu.Unlock()
+	return o.Conn.Close()
+}
+func (o *oddConn) SetDeadline(t time.Time) error {
+	o.mu.Lock()
+	o.dlCalls++
+	if o.afterRet {
+		o.lateCall = true
+	}
+	if o.noDL {
+		o.mu.Unlock()
+		return errors.New("deadlines not supported")
+	}
+	o.armed = !t.IsZero()
+	o.mu.Unlock()
+	return o.Conn.SetDeadline(t)
+}
+
+func TestWatchTransports(t *testing.T) {
+	out := os.Getenv("VH_OUT")
+	if out == "" {
+		t.Skip("VH_OUT not set")
+	}
+	w := newNDWriter(t, out)
+	defer w.Close()
+	watchKeyring = newKeyring(seed())
+	s := newSealer(watchKeyring)
+	hello := handshakeRecord(s.helloBody(sealedHello(stdOuter, stdInner, aEnc{To: "k1", Id: "e1"}, 7, "s1", true), outerRandom, encOpts{padLen: 9}, "", -1))
+	n := 0
+	for _, procs := range []int{1, 4, 16} {
+		old := runtime.GOMAXPROCS(procs)
+		for _, variant := range []string{"nodl", "buffered"} {
+			for _, cancelAt := range []int{-2, 0, 1, 2} { // -2: the context has ended before NewConn is called
+				for _, helloAt := range []int{0, 1} {
+					if variant == "buffered" && helloAt != 0 {
+						continue
+					}
+					for it := 0; it < 12; it++ {
+						n++
+						diff := ""
+						func() {
+							defer func() {
+								if p := recover(); p != nil {
+									diff = fmt.Sprint("panic: ", p)
+								}
+							}()
+							synctest.Test(t, func(t *testing.T) {
+								cl, sv := net.Pipe()
+								defer cl.Close()
+								defer sv.Close()
+								tr := &oddConn{Conn: sv, noDL: variant == "nodl"}
+								if variant == "buffered" {
+									tr.pre = bytes.Clone(hello)
+								}
+								ctx, cancel := context.WithCancel(context.Background())
+								defer cancel()
+								if cancelAt == -2 {
+									cancel()
+								} else {
+									tm := time.AfterFunc(time.Duration(cancelAt)*time.Millisecond, cancel)
+									defer tm.Stop()
+								}
+								go func() {
+									if variant != "buffered" {
+										time.Sleep(time.Duration(helloAt) * time.Millisecond)
+										cl.Write(hello)
+									}
+									buf := make([]byte, 64)
+									for {
+										if _, err := cl.Read(buf); err != nil {
+											return
+										}
+									}
+								}()
+								conn, err := ech.NewConn(ctx, tr, ech.WithKeys(watchKeyring.serverKeys([]string{"K1"})))
+								tr.mu.Lock()
+								tr.afterRet = true
+								tr.mu.Unlock()
+								cancel()
+								synctest.Wait()
+								time.Sleep(3 * time.Millisecond)
+								synctest.Wait()
+								if err != nil {
+									return // refusing is always admissible here
+								}
+								tr.mu.Lock()
+								closed, armed, late := tr.closed, tr.armed, tr.lateCall
+								tr.mu.Unlock()
+								switch {
+								case closed:
+									diff = "NewConn returned a connection whose transport has been closed"
+								case armed:
+									diff = "NewConn returned successfully and left an expired deadline on the transport"
+								case late:
+									diff = "a deadline call reached the transport after NewConn had returned"
+								}
+								if diff == "" {
+									if _, werr := conn.Write([]byte{23, 3, 3, 0, 1, 0x7f}); werr != nil {
+										diff = "I/O on the returned connection fails: " + werr.Error()
+									}
+								}
+							})
+						}()
+						if diff != "" {
+							w.Write(Ev{"key": fmt.Sprintf("%s/cancel%d/hello%d/procs%d", variant, cancelAt, helloAt, procs), "diff": diff})
+						}
+					}
+				}
+			}
+		}
+		runtime.GOMAXPROCS(old)
+	}
+	w.Write(Ev{"summary": true, "runs": n})
 }
